@@ -1,0 +1,11 @@
+//go:build verif
+
+// Contracts checked by /verif/govc (comment-only; compiled only with -tags verif).
+package plonk
+
+//@ spec func wfVK(vk *VerifyingKey) bool = len(vk.CommitmentConstraintIndexes) == len(vk.Qcp)
+
+//@ contract func Verify
+//@   props C08
+//@   requires proof != nil && vk != nil && wfVK(vk)
+//@   nopanic
